@@ -13,3 +13,18 @@ NOT_APPLICABLE = {
  "C19": "bit arithmetic over every (offset,length,content); needs execution or a solver (DESIGN.md §4)",
  "C20": "matcher equivalence over pattern/string pairs; no necessary structural condition (DESIGN.md §4)",
 }
+CLAIMED["C12"] = {
+  "text": "Decides the routing clauses of C12 on every site: all 12 integer-like impls of ArrowNativeTypeOp x 14 methods route checked ops to checked primitives (div/mod behind an is_zero test) and wrapping ops to wrapping primitives; every call of a *_wrapping primitive in arrow_arith is placed in its Op context by evaluating the `match op` dispatch per Op variant (closures traced to their creation point) and none is reachable for a checked Op or inside a fallible helper (exemptions listed, with their side conditions checked); all 7 invocations of a fallible user closure in the unary/binary kernels run under try_for_each_valid_idx or behind a null test. Found the decimal Rem pow_wrapping defect (fixed).",
+  "note": "Necessary conditions only: exactness of i256/decimal arithmetic, precision/scale formulas, Kleene logic and lane handling are value-level and not decided. Trusts rustc MIR and the driver's callee resolution.",
+  "technique": "MIR call inventory + dispatch-table evaluation per enum variant + control dependence (custom rustc driver)",
+}
+CLAIMED["C16"] = {
+  "text": "Decides the structural clauses of C16 for all programs / all paths: shared-buffer types implement no mutable-view trait and 18 compile-fail witnesses (with compiling twins) show safe code cannot mutate or forge them; *const->*mut conversions occur only at 3 audited sites; Buffer->mutable conversions obtain the Bytes only through Arc::try_unwrap/get_mut with no back door; 7 in-place kernels reach only those conversions; for the 3 C-Data-Interface structs every Box/CString handed out by into_raw is reclaimed by the release callback, which clears `release`, and from_raw moves out with ptr::replace; no mem::forget strands an owning field (analysed with feature `pool` on; found and fixed the into_vec reservation leak).",
+  "note": "Does not decide thread interleavings nor logical equality of imported arrays. The pool/ffi configuration is analysed in addition to the baseline one. Trusts rustc (type checker, MIR) and the exemption tables in rules/c16.py.",
+  "technique": "compile-fail witnesses + impl/ADT facts + MIR pairing and field-taken-before-forget analysis",
+}
+CLAIMED["C09"] = {
+  "text": "Decides structural clauses of C09 exhaustively over the DataType enum as defined in the source: for each of the 41 constructors the `match self.data_type` dispatch of ArrayData::validate/validate_child_data/validate_nulls/validate_values is evaluated and every obligation the Arrow format assigns to that layout must be discharged by a reachable validator instantiated at the right offset/key/run-end type (found and fixed the missing Union validation); in 20 checked constructors each of 46 stored operands that is validated on the reference tree must still flow into a branch on which a rejecting exit is control dependent; len+offset goes through the overflow-checked helper; every unchecked/FFI entry point (84) is `unsafe fn`; representations are private (26 types) and 18 compile-fail witnesses hold.",
+  "note": "Does not decide the arithmetic inside each validator (e.g. < vs <=) nor partial weakening of a check that still depends on the operand. The checked-operand reference table (rules/tables/c09_checked_operands.json) was generated from the reference tree and reviewed. Trusts rustc MIR.",
+  "technique": "dispatch-table evaluation per enum constructor + taint-to-rejecting-branch on MIR + API facts + compile-fail witnesses",
+}
